@@ -414,6 +414,14 @@ func (vc *VC) evalBuiltin(s *State, call *ast.CallExpr, name string, want int) [
 				return []*Term{IntLit(0)}
 			}
 		}
+		if len(vc.frames) == 1 && vc.fn.Spec != nil && vc.fn.Spec.DeferredHandler {
+			// the function under verification is itself run as a deferred call: recover() may return any value
+			r := Fresh("recovered", SInt)
+			s.assume(Ge(r, IntLit(0)))
+			s.ghost["$recovered"] = Not(Eq(r, IntLit(0)))
+			vc.ghostTypes["$recovered"] = types.Typ[types.Bool]
+			return []*Term{r}
+		}
 		return []*Term{IntLit(0)}
 	case "copy":
 		dt := vc.typeOf(call.Args[0])
